@@ -4,8 +4,10 @@ id=$1; shift
 git -C /repo apply /verif/seeded/$id/patch.diff || { echo "$id: patch does not apply"; exit 9; }
 trap 'git -C /repo apply -R /verif/seeded/$id/patch.diff' INT TERM
 for c in "$@"; do
+  cp /verif/evidence/$c.json /tmp/.seedrun_ev_$c.json 2>/dev/null   # the run rewrites the evidence file with the violating run: keep the real one
   out=$(timeout 1200 /verif/check $c quick 2>&1); rc=$?
   n=$(echo "$out" | grep -c "^VIOLATION")
+  mv /tmp/.seedrun_ev_$c.json /verif/evidence/$c.json 2>/dev/null
   echo "$id $c exit=$rc violations=$n"
   echo "$out" | grep "^VIOLATION" | sed 's/.*obligation=//' | cut -c1-150 | head -5 | sed 's/^/    /'
 done
